@@ -23,17 +23,18 @@ import (
 )
 
 type HsScenario struct {
-	Seed   uint64    `json:"seed"`
-	Cfg    WConfig   `json:"cfg"`
-	Net    WNet      `json:"net"`
-	Faults []WFault  `json:"faults"`
-	Mode   string    `json:"mode"` // plain | resume | inject | token
-	VN     bool      `json:"vn,omitempty"`
-	Reject bool      `json:"reject_0rtt,omitempty"`
-	Early  int       `json:"early,omitempty"` // bytes of early data on the resumed connection
-	Inject []WInject `json:"inject,omitempty"`
-	Token  string    `json:"token,omitempty"` // valid | rebound | expired | truncated | flipped | otherkey
-	AgeS   int64     `json:"age_s,omitempty"`
+	Seed         uint64    `json:"seed"`
+	Cfg          WConfig   `json:"cfg"`
+	Net          WNet      `json:"net"`
+	Faults       []WFault  `json:"faults"`
+	Mode         string    `json:"mode"` // plain | resume | inject | token
+	VN           bool      `json:"vn,omitempty"`
+	Reject       bool      `json:"reject_0rtt,omitempty"`
+	Early        int       `json:"early,omitempty"` // bytes of early data on the resumed connection
+	Inject       []WInject `json:"inject,omitempty"`
+	Token        string    `json:"token,omitempty"` // valid | rebound | expired | truncated | flipped | otherkey
+	AgeS         int64     `json:"age_s,omitempty"`
+	NoTokenStore bool      `json:"no_token_store,omitempty"` // resume mode: the client keeps session tickets but no address-validation tokens
 }
 
 func (s *HsScenario) KSeed() uint64 { return s.Seed }
@@ -67,6 +68,12 @@ func genHs(seed uint64, tier string) KScenario {
 		sc.Reject = r.P(0.4)
 		sc.Early = r.Pick(1, 500, 5000, 30000)
 		sc.VN = false
+		sc.NoTokenStore = r.P(0.5)
+		if r.P(0.35) {
+			// the Initial packets of the resumed connection's first flight are lost while its 0-RTT packets travel on:
+			// the ClientHello is only seen on a PTO retransmission (and, with Retry, answered by a Retry after that)
+			sc.Net.DropInitials, sc.Net.DropInitialsAfterMS = r.Pick(1, 2, 2, 3), 2500
+		}
 	case x < 8:
 		sc.Mode = "inject"
 		n := r.Range(1, 4)
@@ -370,7 +377,10 @@ func runHs(t *testing.T, ksc KScenario, res *KResult) {
 		verMu.Lock()
 		verified = append(verified, verEntry{w.NowNS(), ci.AddrVerified})
 		verMu.Unlock()
-		return nil, nil
+		// (nil would mean "the default Config": the server must keep the one of the scenario - Allow0RTT, timeouts, ...)
+		c := nodes.SQ.Clone()
+		c.GetConfigForClient = nil
+		return c, nil
 	}
 	if sc.VN {
 		nodes.SQ.Versions = []quic.Version{quic.Version1}
@@ -378,7 +388,10 @@ func runHs(t *testing.T, ksc KScenario, res *KResult) {
 	}
 	if sc.Mode == "resume" || sc.Mode == "token" {
 		nodes.CTLS.ClientSessionCache = tls.NewLRUClientSessionCache(4)
-		nodes.CQ.TokenStore = quic.NewLRUTokenStore(2, 4)
+		if !sc.NoTokenStore || sc.Mode == "token" {
+			// (without a token store a resumed connection to a server that demands address validation meets a Retry again)
+			nodes.CQ.TokenStore = quic.NewLRUTokenStore(2, 4)
+		}
 	}
 	if err := nodes.Listen(); err != nil {
 		res.Fail("Listen failed", "%v", err)
@@ -573,6 +586,27 @@ func runHs(t *testing.T, ksc KScenario, res *KResult) {
 		earlyMu.Unlock()
 		d2 := dial(1, true, horizon)
 		hsCheckOutcome(w, sc, nodes, d2, 1, true, hsTimeout, report, res)
+		res.Logf("resumed dial: conn=%v sconn=%v cerr=%v", d2.conn != nil, d2.sconn != nil, d2.cerr)
+		if d2.sconn != nil {
+			res.Logf("   server Used0RTT=%v", d2.sconn.ConnectionState().Used0RTT)
+		}
+		if d2.conn != nil && d2.sconn != nil && d2.cerr != nil && d2.sconn.ConnectionState().Used0RTT {
+			// the handshake completed with 0-RTT accepted, then the exchange died: if the network had long been quiet by then
+			// (no fault during the last idle period), early data that never reached the server application was lost by the
+			// endpoints, not by the network
+			earlyMu.Lock()
+			n := 0
+			for _, b := range earlyGot {
+				if bytes.Equal(b, early) {
+					n++
+				}
+			}
+			earlyMu.Unlock()
+			idle := time.Duration(max(nzIdle(sc.Cfg.IdleMS[0]), nzIdle(sc.Cfg.IdleMS[1]))) * time.Millisecond
+			if n == 0 && w.NowNS()-w.lastFaultNS() > int64(idle-500*time.Millisecond) {
+				report("C13", "0-RTT accepted but the early data was not delivered to the server application exactly once", "delivered 0 times; the client gave up with %v, last fault %v before that", d2.cerr, time.Duration(w.NowNS()-w.lastFaultNS()))
+			}
+		}
 		if d2.conn != nil && d2.sconn != nil && d2.cerr == nil {
 			cu, su := d2.conn.ConnectionState().Used0RTT, d2.sconn.ConnectionState().Used0RTT
 			if cu != su {
